@@ -116,6 +116,8 @@ pub mod c28;
 #[cfg(feature = "sp")]
 pub mod c28t;
 #[cfg(feature = "sp")]
+pub mod c28u;
+#[cfg(feature = "sp")]
 pub mod c30;
 pub mod c31;
 pub mod c33;
